@@ -9,12 +9,21 @@
 // except according to those terms.
 
 use crate::sinks::core::{MetricSink, SinkStats};
+#[cfg(cadence_verif)]
+use crate::verif::channel::{self as crossbeam_channel, Receiver, Sender, TrySendError};
+#[cfg(not(cadence_verif))]
 use crossbeam_channel::{self, Receiver, Sender, TrySendError};
 use std::fmt;
 use std::io::{self, ErrorKind};
 use std::panic::RefUnwindSafe;
+#[cfg(cadence_verif)]
+use crate::verif::sync::atomic::{AtomicBool, AtomicU64, Ordering};
+#[cfg(cadence_verif)]
+use crate::verif::thread;
+#[cfg(not(cadence_verif))]
 use std::sync::atomic::{AtomicBool, AtomicU64, Ordering};
 use std::sync::Arc;
+#[cfg(not(cadence_verif))]
 use std::thread;
 
 /// Implementation of a builder pattern for `QueuingMetricSink`.
